@@ -163,6 +163,25 @@ def check(rep, elems, sep, cfg, rng=None):
             why = dup_consistent(whole)
             if why:
                 why = f'after parse(commit={commit}, {kw}): ' + why
+    if not why and rng is not None and rng.chance(1, 3):
+        # "an aliquot written directly before a lot group qualifies those lots as a lot division unless divisions are suppressed":
+        # suppression (and break_halves) switched ON in the configuration and OFF again by an explicit keyword must parse like a
+        # tract that never had the setting, and the other way round
+        for setting in ('suppress_lot_divs', 'break_halves'):
+            plain = pytrs.Tract(text, parse_qq=True)
+            with_it = pytrs.Tract(text, parse_qq=True, config=setting)
+            t_on = pytrs.Tract(text, parse_qq=True, config=setting)
+            t_on.parse(**{setting: False})
+            t_off = pytrs.Tract(text, parse_qq=True)
+            t_off.parse(**{setting: True})
+            if (t_on.lots, t_on.qqs) != (plain.lots, plain.qqs):
+                why = f'configured {setting}, then parse({setting}=False): not the result of a tract without the setting'
+            elif (t_off.lots, t_off.qqs) != (with_it.lots, with_it.qqs):
+                why = f'parse({setting}=True) on a plain tract: not the result of a tract configured with the setting'
+            if why:
+                whole = t_on if 'False' in why else t_off
+                exp_lots, exp_qqs = (plain.lots, plain.qqs) if 'False' in why else (with_it.lots, with_it.qqs)
+                break
     if why:
         rep.violation('failing-input', {'elements': elems, 'separator': sep, 'config': cfg, 'text': text, 'why': why,
                                         'observed': snap(whole), 'expected_lots': exp_lots, 'expected_qqs': exp_qqs})
